@@ -42,6 +42,12 @@ seeds = sorted(os.listdir(f'{ROOT}/seeded')) if len(sys.argv) < 2 else sys.argv[
 seeds = [s for s in seeds if os.path.isdir(f'{ROOT}/seeded/{s}')]
 with ThreadPoolExecutor(5) as ex:
     res = list(ex.map(one, seeds))
-json.dump(res, open(f'{ROOT}/seeded/RESULTS.json', 'w'), indent=1)
+if len(sys.argv) >= 2 and os.path.exists(f'{ROOT}/seeded/RESULTS.json'):      # partial run: merge into the stored table
+    old = {r['seed']: r for r in json.load(open(f'{ROOT}/seeded/RESULTS.json'))}
+    old.update({r['seed']: r for r in res})
+    allres = [old[k] for k in sorted(old)]
+else:
+    allres = res
+json.dump(allres, open(f'{ROOT}/seeded/RESULTS.json', 'w'), indent=1)
 for r in res:
     print(r['seed'], 'detected' if r.get('detected') else 'MISSED', 'deductive:', len(r.get('deductive_obligations', [])), 'bounded:', len(r.get('bounded_obligations', [])))
